@@ -164,6 +164,40 @@ def plan_keptrow(rng, r):
     return [w1, mid, w2]
 
 
+def plan_lookup_grow(rng, r, max_pool, max_rows):
+    """Directed plan on ONE table object: a row-id lookup (a selection: it fills the per-column lookup caches -- position
+    cache of the Index, cached argsort of numeric and series columns), then the table is resized in place (grown, or shrunk
+    and grown), then further row-id lookups that involve the added rows (shuffle, sample of all rows, sort, a selection on
+    the new rows' default cells)."""
+    P = r.pool
+    cands = [i for i, q in enumerate(P) if 1 <= len(q) < max_rows and [c for c in col_kinds(q) if c[1] is not None]]
+    if not cands or len(P) + 3 > max_pool + 2:
+        return None
+    ti = rng.choice(cands)
+    dm = P[ti]
+    n = len(dm)
+    cols = [(nm, kd) for nm, kd in col_kinds(dm) if kd is not None]
+    name, kind = rng.choice(cols)
+    ops = [{'op': 'select', 't': ti, 'name': name, 'cmp': rng.choice(['CNe', 'CEq', 'CGe']), 'ref': pyobs.enc(rng.choice(REFS[kind]))}]
+    if rng.random() < 0.3 and n >= 2:
+        ops.append({'op': 'setlength', 't': ti, 'n': n - 1})
+        n -= 1
+    n2 = n + rng.randint(1, 2)
+    ops.append({'op': 'setlength', 't': ti, 'n': n2})
+    follow = rng.choice(['shuffle', 'sample', 'sort', 'select', 'shuffle'])
+    if follow == 'shuffle':
+        ops.append({'op': 'shuffle', 't': ti})
+    elif follow == 'sample':
+        ops.append({'op': 'sample', 't': ti, 'k': n2})
+    elif follow == 'sort':
+        ops.append({'op': 'sort', 't': ti, 'name': name})
+    else:
+        # the new rows hold the default cell ('' / NaN / 0): `!= 1` selects them in every column type (a NaN reference
+        # would be outside the model)
+        ops.append({'op': 'select', 't': ti, 'name': name, 'cmp': 'CNe', 'ref': pyobs.enc(1)})
+    return ops
+
+
 def gen_op(rng, r, weights, bad_rate=0.08, max_pool=7, max_rows=9):
     """Choose the next operation given the runner's live pool."""
     P = r.pool
@@ -174,6 +208,11 @@ def gen_op(rng, r, weights, bad_rate=0.08, max_pool=7, max_rows=9):
         return plan.pop(0)
     if weights.get('merge', 0) >= 10 and len(P) + 3 <= max_pool and rng.random() < 0.12:
         made = plan_merge(rng, r)
+        if made:
+            r.plan = made[1:]
+            return made[0]
+    if weights.get('setlength', 0) >= 1 and (weights.get('shuffle', 0) or weights.get('select', 0)) and rng.random() < 0.03:
+        made = plan_lookup_grow(rng, r, max_pool, max_rows)
         if made:
             r.plan = made[1:]
             return made[0]
